@@ -792,3 +792,189 @@ class EventWorld(CtorWorld):
             ip.exec_block(st.body, env)
             return
         return super().exec_special_for(ip, st, it, env)
+
+
+# ---------------------------------------------------------------------------------------
+# reciprocal to_undirected: two timelines (u->v and v->u), interval-set arithmetic
+# ---------------------------------------------------------------------------------------
+class IntervalSetV:
+    """set(range(lo, hi)) - a set of consecutive instants, half open."""
+
+    def __init__(self, lo, hi, ordered=False, unordered_list=False):
+        self.lo, self.hi, self.ordered, self.unordered_list = lo, hi, ordered, unordered_list
+
+    def __repr__(self):
+        return "%s[%r, %r)" % ("sorted" if self.ordered else ("list-of-set" if self.unordered_list else "set"), self.lo, self.hi)
+
+
+class LenV:
+    def __init__(self, lo, hi):
+        self.lo, self.hi = lo, hi
+
+    def __repr__(self):
+        return "len[%r, %r)" % (self.lo, self.hi)
+
+
+class RecipWorld(CtorWorld):
+    def __init__(self, cfg, ot, choices, methods, all_methods, n_out, n_in):
+        super().__init__(dict(cfg, exists=False), ot, choices, methods, all_methods)
+        def tl(prefix, n):
+            ivs = [ListObj([Int("%sa%d" % (prefix, i)), Int("%sb%d" % (prefix, i))], persistent=True, tag="%s-interval:%d" % (prefix, i))
+                   for i in range(1, n + 1)]
+            return DictObj({Const("t"): ListObj(ivs, persistent=True, tag="%s-timeline" % prefix)}, persistent=True, tag="%s-dict" % prefix)
+        self.d_out = tl("o", n_out)       # U -> V
+        self.d_in = tl("i", n_in)         # V -> U
+
+    def node_exists(self, role):
+        return True
+
+    def pair_exists(self, store, r1, r2):
+        return {r1, r2} == {"U", "V"}
+
+    def pair_dict(self, store, r1, r2, node):
+        if {r1, r2} != {"U", "V"}:
+            raise AbstractRaise("KeyError", node, detail="no adjacency entry %s[%s][%s]" % (store, r1, r2))
+        fwd = (store == "succ" and (r1, r2) == ("U", "V")) or (store == "pred" and (r1, r2) == ("V", "U"))
+        return self.d_out if fwd else self.d_in
+
+    def concretise_iter(self, ip, it, node):
+        if isinstance(it, (NodeMap, SelfV)):
+            return ListObj([NodeV("U"), NodeV("V")])
+        return None
+
+    def compare(self, ip, a, sym, b, node):
+        if isinstance(a, NodeV) and isinstance(b, NodeV) and sym in ("<", "<=", ">", ">="):
+            if a.role == b.role:
+                return sym in ("<=", ">=")
+            u_gt_v = self.choose("node-order:U>V")
+            a_gt_b = u_gt_v if a.role == "U" else not u_gt_v
+            return a_gt_b if sym in (">", ">=") else not a_gt_b
+        if isinstance(a, LenV) and isinstance(b, Const) and isinstance(b.v, int):
+            c = b.v
+            lo, hi = a.lo, a.hi
+            if c <= 0:
+                nonempty = ip.cmp_int(hi, lo, ">", node)
+                return {"==": (not nonempty) if c == 0 else False, "!=": nonempty if c == 0 else True,
+                        ">": nonempty if c == 0 else True, ">=": True, "<": False, "<=": (not nonempty) if c == 0 else False}[sym]
+            ref = Int(lo.base, lo.k + c)
+            if sym in ("==", "!="):
+                r = ip.cmp_int(hi, ref, "==", node)
+                return r if sym == "==" else not r
+            return ip.cmp_int(hi, ref, sym, node)
+        return super().compare(ip, a, sym, b, node)
+
+    def call_builtin(self, ip, name, args, kwargs, node):
+        if name in ("set", "frozenset") and len(args) == 1 and isinstance(args[0], RangeV):
+            return IntervalSetV(args[0].lo, args[0].hi)
+        if name in ("set", "frozenset") and len(args) == 1 and isinstance(args[0], IntervalSetV):
+            return IntervalSetV(args[0].lo, args[0].hi)
+        if name == "sorted" and len(args) == 1 and isinstance(args[0], (IntervalSetV, RangeV)):
+            if kwargs:
+                raise Unsupported(node, "sorted with options")
+            return IntervalSetV(args[0].lo, args[0].hi, ordered=True)
+        if name in ("list", "tuple") and len(args) == 1 and isinstance(args[0], IntervalSetV):
+            return IntervalSetV(args[0].lo, args[0].hi, ordered=args[0].ordered, unordered_list=not args[0].ordered)
+        if name == "len" and len(args) == 1 and isinstance(args[0], IntervalSetV):
+            return LenV(args[0].lo, args[0].hi)
+        return super().call_builtin(ip, name, args, kwargs, node)
+
+    def binop(self, ip, a, op, b, node):
+        if isinstance(op, ast.BitAnd) and isinstance(a, (IntervalSetV, RangeV)) and isinstance(b, (IntervalSetV, RangeV)):
+            lo = a.lo if ip.cmp_int(a.lo, b.lo, ">=", node) else b.lo
+            hi = a.hi if ip.cmp_int(a.hi, b.hi, "<=", node) else b.hi
+            return IntervalSetV(lo, hi)
+        return super().binop(ip, a, op, b, node)
+
+    def load_subscript(self, ip, obj, key, node):
+        if isinstance(obj, IntervalSetV) and isinstance(key, Const) and key.v in (0, -1):
+            if not ip.cmp_int(obj.hi, obj.lo, ">", node):
+                raise AbstractRaise("IndexError", node, detail="index into an empty list of shared instants")
+            if not obj.ordered:
+                self.unordered_uses = getattr(self, "unordered_uses", 0) + 1
+                return Opaque("arbitrary-element")
+            return obj.lo if key.v == 0 else Int(obj.hi.base, obj.hi.k - 1)
+        return super().load_subscript(ip, obj, key, node)
+
+
+def check_reciprocal(cc: "CtorChecker", shapes=((1, 1), (1, 2), (2, 1))):
+    cls = "DynDiGraph"
+    rel = CLASSES[cls]
+    fn = cc.repo.get(rel, cls + ".to_undirected")
+    construct = cc.repo.construct(rel, cls + ".to_undirected") + "[reciprocal]"
+    for (n_out, n_in) in shapes:
+        cc.instances += 1
+        syms, cons = [], []
+        for pre, n in (("o", n_out), ("i", n_in)):
+            for i in range(1, n + 1):
+                syms += ["%sa%d" % (pre, i), "%sb%d" % (pre, i)]
+                cons.append(("%sa%d" % (pre, i), 0, "<=", "%sb%d" % (pre, i), 0))
+                if i > 1:
+                    cons.append(("%sb%d" % (pre, i - 1), 2, "<=", "%sa%d" % (pre, i), 0))
+        for zero in (False, True):
+            try:
+                for ot in enumerate_order_types(syms + (["0"] if zero else []), cons, cc.R):
+                    cfg = dict(cls=cls, directed=True, removal=True, exists=False)
+
+                    def once(ch, ot=ot):
+                        w = RecipWorld(cfg, ot, ch, cc.all_methods[cls], cc.all_methods, n_out, n_in)
+                        ip = CtorInterp(w, ot)
+                        env = {"self": SelfV(), "reciprocal": TRUE}
+                        if fn.args.kwarg:
+                            env[fn.args.kwarg.arg] = DictObj()
+                        try:
+                            return ("ok", w, ip.call_function(fn, env))
+                        except AbstractRaise as r:
+                            return ("raise", w, r)
+                    for ch, (kind, w, val) in run_all_choices(once):
+                        cc.n_runs += 1
+                        _judge_recip(cc, construct, n_out, n_in, ot, w, kind, val)
+                    cc.n_ordertypes += 1
+                break
+            except NeedZero:
+                if zero:
+                    raise
+
+
+def _judge_recip(cc, construct, n_out, n_in, ot, w, kind, val):
+    wit = "u->v has %d interval(s) [oa,ob], v->u has %d [ia,ib] | order: %s" % (n_out, n_in, ot.describe())
+    if kind == "raise":
+        cc.add("C16.reciprocal", construct, "raises:%s" % val.exc, "to_undirected(reciprocal=True) raises %s (%s)" % (val.exc, val.detail),
+               wit, getattr(val.node, "lineno", 0))
+        return
+    if not isinstance(val, NewGraph) or val.cls != "DynGraph":
+        cc.add("C16.reciprocal", construct, "wrong-class", "returns %r" % (val,), wit)
+        return
+    # expected: the non-empty intersections, in increasing order
+    want = []
+    for i in range(1, n_out + 1):
+        for j in range(1, n_in + 1):
+            oa, ob, ia, ib = ("oa%d" % i, 0), ("ob%d" % i, 0), ("ia%d" % j, 0), ("ib%d" % j, 0)
+            lo = oa if ot.cmp_terms(oa, ia, ">=") else ia
+            hi = ob if ot.cmp_terms(ob, ib, "<=") else ib
+            if ot.cmp_terms(lo, hi, "<="):
+                want.append((lo, hi))
+    import functools
+    want.sort(key=functools.cmp_to_key(lambda x, y: 0 if ot.cmp_terms(x[0], y[0], "==") else (-1 if ot.cmp_terms(x[0], y[0], "<") else 1)))
+    got = []
+    for (u, v, t, e, _, intry) in val.calls:
+        if {getattr(u, "role", None), getattr(v, "role", None)} != {"U", "V"}:
+            cc.add("C16.reciprocal", construct, "foreign-pair", "add_interaction on %r, %r" % (u, v), wit)
+            return
+        if not isinstance(t, Int):
+            cc.add("C16.reciprocal", construct, "t-not-an-instant", "add_interaction receives t=%r (%s)" % (
+                t, "an arbitrary element of an unordered set: list(set) has no defined order" if isinstance(t, Opaque) else "not an instant"), wit)
+            return
+        # closed span [t, end]
+        if isinstance(e, Const) and e.v is None:
+            end = t
+        elif isinstance(e, Int):
+            end = Int(e.base, e.k - 1)
+        else:
+            cc.add("C16.reciprocal", construct, "e-not-an-instant", "add_interaction receives e=%r" % (e,), wit)
+            return
+        got.append((t.term(), end.term()))
+    same = len(got) == len(want) and all(ot.cmp_terms(g[0], w_[0], "==") and ot.cmp_terms(g[1], w_[1], "==") for g, w_ in zip(got, want))
+    if not same:
+        kind2 = "missing" if len(got) < len(want) else ("extra" if len(got) > len(want) else "bounds")
+        cc.add("C16.reciprocal", construct, "intersection:%s:%dx%d" % (kind2, n_out, n_in),
+               "reciprocal conversion re-adds the closed spans %s; the instants shared by both directions are %s" % (got, want), wit)
